@@ -2,7 +2,7 @@
 import tables as T
 from cfg import cfg_of
 from flow import Taint, callee_matches, op_local, prep
-from rules import CallGuard, CallSink, CmpGuard, RetSink, AggSink, BlockSink
+from rules import CallGuard, CallSink, CmpGuard, RetSink, AggSink, BlockSink, P
 
 META = {
     "explanation": "Decides: (1) Network::put_local_record is called only from the four typed store functions, which are called only from "
@@ -135,16 +135,11 @@ def run(R):
         R.must_call("C03.pay.closest", PAY, ["ant_networking::Network::get_closest_k_value_local_peers"], "payees are compared with get_closest_k_value_local_peers")
         R.must_call("C03.pay.retain", PAY, ["alloc::vec::Vec::retain"], "payees.retain(not in closest)")
         # (5) quoted address
-        quoted = CmpGuard(param_seeds("address"), field_read_seeds("content"), "Eq",
+        quoted = CmpGuard(P(1), field_read_seeds("content"), "Eq",
                           "this node's quote.content equals the stored address", through="all")
         R.gate_reject("C03.pay.quoted-address", pay, ok_ret, [quoted], descr="Ok(()) unreachable once a quote of this node is for another address")
         R.must_call("C03.pay.own-quotes", PAY, ["ant_evm::data_payments::ProofOfPayment::quotes_by_peer"], "the compared quotes are this node's (quotes_by_peer)")
 
     # (4) verify_for
-    vf = R.body("C03.verify_for", "ant_evm::data_payments::ProofOfPayment::verify_for")
-    if vf is not None:
-        R.gate_reject("C03.verify_for", vf, RetSink("true"),
-                      [CallGuard(["*::contains"], ("true",), "payees().contains(peer)"),
-                       CallGuard(["ant_evm::data_payments::PaymentQuote::check_is_signed_by_claimed_peer"], ("true",), "every quote check_is_signed_by_claimed_peer"),
-                       CallGuard(["ant_evm::data_payments::EncodedPeerId::to_peer_id"], ("Ok",), "encoded peer id decodes")],
-                      descr="verify_for returns true only if payee and every quote is signed by its claimed peer")
+    from props.C13 import verify_for_rules
+    verify_for_rules(R, "C03")
